@@ -33,7 +33,7 @@ var c08SignedWire = map[string]struct {
 // c08Triaged: wrap-capable uint16 index arithmetic that the engine cannot decide and that was
 // confirmed by reading the code. Keyed by "root function|function containing the operation" (not by
 // instruction ordinals, so that edits elsewhere in these functions do not invalidate the entry); applies
-// only to conversions and arithmetic, never to masks. An entry that matches no site fails the check.
+// only to conversions and arithmetic, never to masks. An entry that matches no site is reported as unused (information only: it discharges nothing).
 var c08Triaged = map[string]string{
 	"(StatusVectorChunk).Marshal|(StatusVectorChunk).Marshal": "symbol index arithmetic uint16(i), numOfBits*uint16(i)+2: numOfBits (lookup in the constant map of numOfBitsOfSymbolSize) is 1, 2 or - for a SymbolSize outside the table, itself reported as finding F15 - 0. For 1 or 2 the index grows every iteration and setNBitsOfUint16 fails once index+numOfBits > 16, aborting the loop: i <= 14, nothing wraps. For 0 the product is 0 whatever uint16(i) is",
 	"(StatusVectorChunk).Marshal|setNBitsOfUint16":            "startIndex+size, (1<<size)-1, 16-size-startIndex inside the helper when called from the symbol loop: startIndex <= 2*14+2 and size <= 2 there (see the entry above), and the subtraction is guarded by startIndex+size <= 16 just above it",
@@ -65,7 +65,7 @@ func checkC08(c *Ctx) {
 	r := c.Rep
 	p := c.Prog
 	r.Explain = "The numeric abstract interpreter evaluates every Marshal method of the package — the 15 packet types and, as roots of their own with an unconstrained receiver, every helper encoder (ReceptionReport, SDES chunk/item, TWCC chunks and deltas, CCFB blocks, Header) — on all field values and list lengths. Inside a packet-level root the (effect-free) helper encoders are opaque: their result and error are unconstrained, so the packet-level rules only rely on how the error is handled. C08-NARROW: every fixed-width operation that can lose information — a conversion to a narrower integer type, fixed-width arithmetic that can wrap, a low-bit mask x&(2^k-1) — is an obligation per calling context (call-site sensitive call string): the operand must be entailed to fit at the operation, or be a byte extraction whose dropped bits are emitted by a sibling conversion of the same value (x>>8k family), or its pre-operation value (kept in a ghost that is re-assigned at every execution and starts at 0) must be entailed to fit at every return of the root whose error is nil. C08-ERR: in every function of the universe, at every return whose own error result is nil, the error result of every call made by that function is entailed to be nil (no dropped error); error results read as 'nil if the call has not executed yet'. Together: a nil error from a packet's Marshal implies a nil error from every helper it called, and a nil error from any encoder implies that none of its narrowing operations lost information."
-	r.RuleText = "C08-NARROW (per instruction and call string), C08-ERR (per call returning an error), C08-LIMIT (a value exactly at a wire limit is not rejected on every path), C08-ROOT anchors. Undecided = failure. Frozen tables: signed wire units (c08SignedWire), index arithmetic confirmed by reading (c08Triaged: 2 entries keyed by root and function, each must match an undecided site)."
+	r.RuleText = "C08-NARROW (per instruction and call string), C08-ERR (per call returning an error), C08-LIMIT (a value exactly at a wire limit is not rejected on every path), C08-ROOT anchors. Undecided = failure. Frozen tables: signed wire units (c08SignedWire), index arithmetic confirmed by reading (c08Triaged: 2 entries keyed by root and function, an unused entry is reported as information)."
 	r.Trusted = []string{"go/ssa, VTA call graph", "numeric engine checker/num (exact fixed-width semantics with wrap atoms)", "effects analysis (purity of the opaque helper encoders, determinism of the size functions)", "models of encoding/binary, copy, append, math"}
 	r.Assume = []string{
 		fmt.Sprintf("size domain: the encoding fits one datagram (MarshalSize(), wireSize() <= %d bytes) and the arithmetic of the size computations (functions reachable from a MarshalSize method) does not wrap; a wrapped size makes the copies into the buffer panic, which is not a silent success", c05MaxBytes),
@@ -223,7 +223,7 @@ func checkC08(c *Ctx) {
 		}
 		sort.Strings(stale)
 		for _, k := range stale {
-			r.Fatalf("triage table entry %q matches no undecided narrowing site (stale table)", k)
+			r.Infof("triage table entry %q matches no undecided narrowing site on this tree (unused: the engine decides these sites itself or the code changed)", k)
 		}
 	}
 	r.Infof("%d narrowing sites lie in the size computations (MarshalSize universe) and are covered by the size-domain assumption", nAssumed)
